@@ -83,6 +83,7 @@ Record table := mkTable {
   t_elseif : list cls; t_else_endif : list cls;
   t_maskedelse : list cls; t_else_endwhere : list cls;
   t_enddo_continue : list cls;
+  t_stray_enddo : list cls;                (* end classes that raise when their label is not the DO statement's (probed) *)
   t_main_name : name;                      (* "fparser2:main_program" *)
   t_shared_restores : bool;                (* Outer/Inner_Shared_Do_Construct restore on failure *)
   t_main0_guarded : bool;                  (* Main_Program0 leaves its scope on an exception *)
@@ -287,6 +288,25 @@ Definition name_check (b : bspec) (start_name end_name : option name) (strict : 
 
 (* one iteration of the BlockBase.match loop after the class at index i has been fetched and the
    leading comments of the DO-label hook absorbed; [cont] continues the loop *)
+(* the two FortranSyntaxErrors BlockBase.match raises for a matched statement before it decides what the
+   statement is: a construct name that does not agree, and (probed variant) an END DO whose label is not the
+   DO statement's -- it closes nothing *)
+Definition stmt_error (b : bspec) (startinfo : info) (t : tree) (is_end : bool) : option exn :=
+  let e0 := if b_match_names b && mem (tcls t) (b_name_classes b)
+            then match end_name (tinfo t), start_name startinfo with
+                 | Some _, None => Some ESyntax
+                 | Some e, Some s0 => if N.eqb e s0 then None else Some ESyntax
+                 | None, _ => None
+                 end
+            else None in
+  match e0 with
+  | Some e => Some e
+  | None => if is_end && b_match_labels b
+               && negb (oN_eqb (start_label startinfo) (end_label (tinfo t)))
+               && mem (tcls t) (t_stray_enddo T)
+            then Some ESyntax else None
+  end.
+
 Definition block_step (rec : matcher) (b : bspec) (start_idx : nat) (cont : lst -> M lout)
            (lc : lcls) (st : lst) : M lout :=
   let startinfo := match nth_error (l_content st) start_idx with Some t => tinfo t | None => noinfo end in
@@ -323,17 +343,11 @@ Definition block_step (rec : matcher) (b : bspec) (start_idx : nat) (cont : lst 
       else
         let content := l_content st ++ [t] in
         (* match_names and isinstance(obj, match_name_classes) *)
-        let e1 := if b_match_names b && mem (tcls t) (b_name_classes b)
-                  then match end_name (tinfo t), start_name startinfo with
-                       | Some _, None => Some ESyntax
-                       | Some e, Some s0 => if N.eqb e s0 then None else Some ESyntax
-                       | None, _ => None
-                       end
-                  else None in
+        let is_end := match b_end b with Some _ => mem (tcls t) (b_endall b) | None => false end in
+        let e1 := stmt_error b startinfo t is_end in
         match e1 with
         | Some e => raise e
         | None =>
-          let is_end := match b_end b with Some _ => mem (tcls t) (b_endall b) | None => false end in
           if is_end && b_match_labels b
              && negb (oN_eqb (start_label startinfo) (end_label (tinfo t)))
           then (* labels differ: continue, i unchanged *)
